@@ -15,7 +15,7 @@ ASSUMPTIONS = [
     "pre-emption inside an evaluation is outside the model; it can reach the code only through the completion order and the shared generator, both modelled",
     "pairwise distinct initial points: numpy's continuous samplers return distinct values with probability 1 (checked on continuous tasks)",
 ]
-MODULES = ["PvModel.Props.C11", "PvModel.Props.T11"]
+MODULES = ["PvModel.Props.C11", "PvModel.Props.T11", "PvModel.Props.T01", "PvModel.Props.T05"]
 
 
 def pooled_combinators(job):
@@ -52,8 +52,12 @@ def pooled_combinators(job):
     opt._task = t
     opt._mode, opt._workers = ModeSolver(mode), workers
     pool.POOL_LOG.clear()
-    with pool.permuted_pool(job["seed"] + 1):
-        agents = opt._generate_agents(job["n"] + 3)
+    try:
+        with pool.permuted_pool(job["seed"] + 1):
+            agents = opt._generate_agents(job["n"] + 3)
+    except Exception as e:  # noqa
+        out["gen"] = {"raised": f"{type(e).__name__}: {e}"}
+        return out
     out["gen"] = {"asked": job["n"] + 3, "got": len(agents), "distinct": len({tuple(a.position) for a in agents}), "log": [(a, b) for a, b, _ in pool.POOL_LOG],
                   "in_bounds": all(-5.0 <= a.position[0] <= 5.0 and 0.0 <= a.position[1] <= 1.0 for a in agents)}
     return out
@@ -64,7 +68,7 @@ def run(ctx):
     ctx.suites_run.append("S-pool")
     rng = ctx.rng
     ctx.rule("pooled combinators (_greedy_select_population, _generate_agents) on a scripted optimizer under seeded permutations of the completion order × workers {1,2,3,4,8,16} × thread/process; "
-             "full runs of real optimizers in thread/process mode with permuted and with real completion order: all C01/C02/C03/C10 oracles, multiset of initial positions pairwise distinct, one agent per pooled evaluation; "
+             "full runs of real optimizers in thread/process mode with permuted and with real completion order, half of the thread runs with injected per-evaluation delays (overlapping evaluations): all C01/C02/C03/C10 oracles, multiset of initial positions pairwise distinct, one agent per pooled evaluation; "
              "a case = one pooled call or run; non-trivial = ≥ 2 workers and ≥ 2 pooled evaluations")
     # ---- pooled combinators under permutations
     cj = []
@@ -78,7 +82,9 @@ def run(ctx):
             ctx.fail("C11/_greedy_select_population/pooled-outcome-not-a-permutation-of-serial", f"{r['greedy']}", "S-pool", {"job": j})
         g = r["gen"]
         ctx.case(("generate", repr(j)), nontrivial=j["workers"] >= 2, kind=f"generate:{j['mode']}:w{j['workers']}")
-        if g["got"] != g["asked"] or any(a != b for a, b in g["log"]):
+        if "raised" in g:
+            ctx.fail(f"C11/_generate_agents/raises/{g['raised'].split(':')[0]}", f"{j['n'] + 3} agents with {j['workers']} workers in {j['mode']} mode: {g['raised']}", "S-pool", {"job": j})
+        elif g["got"] != g["asked"] or any(a != b for a, b in g["log"]):
             ctx.fail("C11/_generate_agents/evaluation-lost-or-duplicated", f"{g}", "S-pool", {"job": j})
         elif g["distinct"] != g["got"]:
             ctx.fail(f"C11/_generate_agents/initial-points-not-pairwise-distinct/{j['mode']}", f"{g['distinct']} distinct of {g['got']}", "S-pool", {"job": j})
@@ -102,6 +108,8 @@ def run(ctx):
     for j in js:
         j["workers"] = rng.choice([1, 2, 3, 4, 8, 16])
         j["pool_perm"] = rng.choice([None, rng.randrange(10 ** 6), rng.randrange(10 ** 6)])
+        if j["mode"] == "thread" and rng.random() < 0.5:
+            j["delay"] = rng.choice([0.0005, 0.002])       # injected per-evaluation delay (seconds, jittered): evaluations overlap in time
     own_init = {a["cls"] for a in getattr(ctx, "facts", {}).get("algos", []) if "_init_population" in a.get("overrides", []) and a["cls"] != "BeeColonyOptimization"}
     results = pmap(trace.run_traced, js, jobs=8)
     for r in results:
